@@ -6,6 +6,7 @@ import (
 	"context"
 	"fmt"
 	"google.golang.org/grpc/credentials"
+	"io"
 	"strings"
 	"sync"
 	"testing"
@@ -59,7 +60,14 @@ type c10Case struct {
 	// made), and every handler sees the metadata as it was when its call was made
 	Again       int  `json:",omitempty"`
 	AgainStream bool `json:",omitempty"`
-	MutCaller   bool // streaming callers modify the very map they attached, after the call has started and before the handler looks
+	// Ends != "": separate mode - one call whose handler looks at how its context ends. "deadline": the caller's
+	// (short) deadline passes while the handler waits; "cancel": the caller cancels; "live": the call completes and
+	// the caller's context stays live. The handler's context and the client-context accessor end when and why the
+	// caller's context does (DeadlineExceeded vs Canceled), and the accessor's context outlives the handler.
+	Ends       string `json:",omitempty"`
+	EndsStream bool   `json:",omitempty"`
+	EndsInt    bool   `json:",omitempty"` // with a server interceptor on the channel
+	MutCaller  bool   // streaming callers modify the very map they attached, after the call has started and before the handler looks
 }
 
 type c10StrKey string
@@ -102,6 +110,153 @@ func (p *c10Probe) fault(format string, a ...interface{}) {
 		p.faults = append(p.faults, fmt.Sprintf(format, a...))
 	}
 	p.mu.Unlock()
+}
+
+func c10Ends(c c10Case) *Outcome {
+	o := &Outcome{NonTrivial: true}
+	o.class("context-end/%s/stream=%v/interceptor=%v", c.Ends, c.EndsStream, c.EndsInt)
+	type seenT struct {
+		ctxErr, ccErr error
+		cc            context.Context
+		waited        bool
+	}
+	res := make(chan seenT, 1)
+	started := make(chan struct{})
+	look := func(ctx context.Context) {
+		close(started)
+		var s seenT
+		s.cc = inprocgrpc.ClientContext(ctx)
+		if c.Ends != "live" {
+			select {
+			case <-ctx.Done():
+				s.waited = true
+			case <-time.After(stallBound / 2):
+			}
+			s.ctxErr = ctx.Err()
+			if s.cc != nil {
+				select {
+				case <-s.cc.Done():
+				case <-time.After(time.Second):
+				}
+				s.ccErr = s.cc.Err()
+			}
+		}
+		res <- s
+	}
+	svc := &Service{
+		Unary: func(ctx context.Context, req *pb.Message) (*pb.Message, error) {
+			look(ctx)
+			return &pb.Message{}, nil
+		},
+		Stream: func(kind string, stream grpc.ServerStream) error {
+			look(stream.Context())
+			return nil
+		},
+	}
+	ch := &inprocgrpc.Channel{}
+	if c.EndsInt {
+		ch.WithServerUnaryInterceptor(func(ctx context.Context, req interface{}, info *grpc.UnaryServerInfo, handler grpc.UnaryHandler) (interface{}, error) {
+			return handler(ctx, req)
+		})
+		ch.WithServerStreamInterceptor(func(srv interface{}, ss grpc.ServerStream, info *grpc.StreamServerInfo, handler grpc.StreamHandler) error {
+			return handler(srv, ss)
+		})
+	}
+	ch.RegisterService(newServiceDesc(), svc)
+	ctx, cancel := context.WithCancel(context.Background())
+	defer cancel()
+	wantErr := error(nil)
+	switch c.Ends {
+	case "deadline":
+		var cancelDL context.CancelFunc
+		ctx, cancelDL = context.WithTimeout(ctx, 15*time.Millisecond)
+		defer cancelDL()
+		wantErr = context.DeadlineExceeded
+	case "cancel":
+		wantErr = context.Canceled
+		go func() {
+			select {
+			case <-started:
+			case <-time.After(stallBound / 2):
+			}
+			cancel()
+		}()
+	}
+	var err error
+	var s seenT
+	got := false
+	liveFault := ""
+	stall := guard("call", func() {
+		if c.EndsStream {
+			var cs grpc.ClientStream
+			cs, err = ch.NewStream(ctx, streamDescOf(kBidi), mBidi)
+			if err == nil {
+				cs.CloseSend()
+				if c.Ends == "live" {
+					// the handler is through while the client has not yet looked at the outcome: the call is still
+					// in progress on the caller's side and the caller's context is live, so the accessor's is too
+					select {
+					case s = <-res:
+						got = true
+						time.Sleep(3 * time.Millisecond)
+						if s.cc != nil {
+							if e := s.cc.Err(); e != nil {
+								liveFault = fmt.Sprintf("the handler has returned, the caller has not yet received the outcome and its context is live, yet the context from ClientContext reports %v", e)
+							}
+						}
+					case <-time.After(stallBound / 2):
+					}
+				}
+				if err = cs.RecvMsg(new(pb.Message)); err == io.EOF {
+					err = nil
+				}
+			}
+			return
+		}
+		err = ch.Invoke(ctx, mUnary, &pb.Message{}, new(pb.Message))
+	})
+	if stall != "" {
+		return o.failf("stall: %s", stall)
+	}
+	if !got {
+		select {
+		case s = <-res:
+		case <-time.After(stallBound):
+			select {
+			case <-started:
+				return o.failf("context-end/%s: the handler did not come to an end", c.Ends)
+			default:
+				// the context ended before the handler was dispatched: nothing to look at
+				o.NonTrivial = false
+				return o
+			}
+		}
+	}
+	o.Observed = map[string]interface{}{"call": errStr(err), "handler_ctx_err": errStr(s.ctxErr), "client_context_err": errStr(s.ccErr)}
+	if s.cc == nil {
+		return o.failf("context-end/%s: ClientContext(ctx) is nil in the handler", c.Ends)
+	}
+	if c.Ends == "live" {
+		if err != nil {
+			return o.failf("context-end/live: call failed: %v", err)
+		}
+		if liveFault != "" {
+			return o.failf("context-end/live (stream): %s", liveFault)
+		}
+		// (once the caller's side of the call is complete the library ends the context it handed out; whether
+		// it should is not something the property says)
+		return o
+	}
+	if !s.waited {
+		return o.failf("context-end/%s: the caller's context ended, the handler's context was not done %v later", c.Ends, stallBound/2)
+	}
+	if s.ctxErr != wantErr {
+		return o.failf("context-end/%s (stream=%v): the handler's ctx.Err() is %v, the caller's context ended with %v", c.Ends, c.EndsStream, s.ctxErr, wantErr)
+	}
+	if s.ccErr != wantErr {
+		return o.failf("context-end/%s (stream=%v): ClientContext(ctx).Err() is %v in the handler, the caller's context ended with %v", c.Ends, c.EndsStream, s.ccErr, wantErr)
+	}
+	return o
 }
 
 func c10Again(c c10Case) *Outcome {
@@ -164,6 +319,9 @@ func c10Again(c c10Case) *Outcome {
 }
 
 func propC10(c c10Case) *Outcome {
+	if c.Ends != "" {
+		return c10Ends(c)
+	}
 	if c.Again > 0 {
 		return c10Again(c)
 	}
@@ -487,6 +645,9 @@ func propC10(c c10Case) *Outcome {
 }
 
 func genC10(t *rapid.T) c10Case {
+	if rapid.IntRange(0, 19).Draw(t, "ends") == 0 {
+		return c10Case{Ends: rapid.SampledFrom([]string{"deadline", "cancel", "live"}).Draw(t, "endshow"), EndsStream: rapid.Bool().Draw(t, "endsstream"), EndsInt: rapid.Bool().Draw(t, "endsint")}
+	}
 	if rapid.IntRange(0, 19).Draw(t, "again") == 0 {
 		return c10Case{Again: rapid.IntRange(1, 3).Draw(t, "againn"), AgainStream: rapid.Bool().Draw(t, "againstream")}
 	}
@@ -534,7 +695,7 @@ func genC10(t *rapid.T) c10Case {
 
 func init() { registerReplay("C10", propC10) }
 
-const c10Rule = "rapid-generated: 1..3 nesting levels (each in-process handler makes the next call from its own context, so the caller's context carries an enclosing call's incoming metadata, peer, transport stream and client-context key), 0..6 context values per level under string/int/struct/pointer/typed keys, outgoing metadata present or absent per level, incoming metadata and a foreign peer planted in the outermost context, optional deadline, unary or streaming per level, with/without server interceptors, optional cancellation of the outermost caller, optional metadata mutation on both sides, optional per-RPC credentials per level under a key of their own or under one the caller's metadata uses too; " +
+const c10Rule = "rapid-generated: 1..3 nesting levels (each in-process handler makes the next call from its own context, so the caller's context carries an enclosing call's incoming metadata, peer, transport stream and client-context key), 0..6 context values per level under string/int/struct/pointer/typed keys, outgoing metadata present or absent per level, incoming metadata and a foreign peer planted in the outermost context, optional deadline, unary or streaming per level, with/without server interceptors, optional cancellation of the outermost caller, optional metadata mutation on both sides, optional per-RPC credentials per level under a key of their own or under one the caller's metadata uses too; a separate mode where the caller's context really ends (15 ms deadline, or cancellation once the handler runs) or stays live after the call: the handler's ctx.Err() and ClientContext(ctx).Err() say DeadlineExceeded resp. Canceled, and the accessor's context is still live after the handler has returned; " +
 	"oracle in every handler: ctx.Value(k) == nil for every key of every enclosing caller; ClientContext(ctx) is the caller's context and yields its values; incoming metadata = caller's outgoing metadata (none => none); peer network inproc; deadline equal to the caller's; ServerTransportStream.Method() is this call's method; cancellation reaches the innermost handler; metadata mutation on one side invisible on the other; " +
 	"also generated since the seeded rounds: callers mutating their metadata map after the call started, grpc-prefixed application keys (grpc-trace-bin, ...), a caller peer with TLS auth info (the handler's peer must stay purely in-process); " +
 	"non-trivial = >=1 caller value and (nested or outgoing metadata present); distinct by case hash"
